@@ -75,6 +75,9 @@ def render(ticks, groups, inter):
     elif inter == "inside":
         for t, g in zip(ticks, groups):
             body += g[:1] + [s(t), e(t)] + g[1:]
+    elif inter == "noise":  # unparsable lines (C14: reported and skipped) between and inside the ticks
+        for k, g in enumerate(groups):
+            body += g[:1] + [("", "garbage", "   ", "%d = N 8 0" % ticks[k])[k % 4]] + g[1:]
     return body
 
 
@@ -100,7 +103,7 @@ def plan(tier, seed):
             K3="32^3 x gaps{1,2,100}^2 x interleavings{none,between,inside} + flags on the last tick",
             K4="12^4 over a 12-combination sub-alphabet (every lane count), gaps{1,2}, orders asc/desc",
         )
-    shards += [("long", g, inter) for g in (1, 2, 100) for inter in ("none", "between", "inside")]
+    shards += [("long", g, inter) for g in (1, 2, 100) for inter in ("none", "between", "inside", "noise")]
     shards += [("big", lo) for lo in range(0, 28, 2)]
     shards += [("headers", k) for k in range(4)]
     bounds["headers"] = "all 40 section headers (instrument x difficulty): 32 combinations x 4 flag sets x 3 line orders x 3 interleavings each"
@@ -167,7 +170,7 @@ def run_shard(shard, ctx):
         for header in list(TRACK_HEADERS)[shard[1] :: 4]:
             ins, dif = TRACK_HEADERS[header]
             for order in ORDERS:
-                for inter in ("none", "between", "inside"):
+                for inter in ("none", "between", "inside", "noise"):
                     ctx.node()
                     combos, flags = [], []
                     for f in FLAGS:
